@@ -129,11 +129,11 @@ def finish_ctor(spec_ctor_text: str) -> str:
 class InitTr(Tr):
     """`__init__` does not return; its result is the `_nsec` handed to `super().__init__`."""
 
-    def block(self, stmts, depth=1):
+    def block(self, stmts, depth=1, tail=None):
         stmts2 = [s for s in stmts if not self.skippable(s)]
         if len(stmts2) == 1 and ast.unparse(stmts2[0]) == "super().__init__(nsec=_nsec)":
             return self.ret_wrap("(TS.mk _nsec.1 _nsec.2)")
-        return super().block(stmts, depth)
+        return super().block(stmts, depth, tail=tail)
 
 
 SQL_SUBST = {
